@@ -7,7 +7,7 @@ import MbVerif.Proofs.Exhausted
 import MbVerif.Proofs.NonInterf
 import MbVerif.Proofs.LogCount
 
-namespace Mb
+namespace Mb.Countdown
 variable {σ : Type} (ρ : Oracle σ)
 
 /-! ### the log only grows, and the first entry of a transition is its own `trans` entry -/
@@ -1169,4 +1169,95 @@ theorem call_blockingBegin_fire (mi : Nat) (t : Int) (s : Fw σ) (r : Runtime) (
       then decrementLimit ρ k (transition ρ FUEL k .blockingBegin a).1 else (transition ρ FUEL k .blockingBegin a).1) b)
   exact ⟨l ++ l1, l2, by rw [hl', p5]; simp [Fw.callStart]⟩
 
-end Mb
+theorem lt_length_of_getElem?_some {α : Type} {l : List α} {i : Nat} {x : α} (h : l[i]? = some x) : i < l.length := by
+  rcases Nat.lt_or_ge i l.length with h' | h'
+  · exact h'
+  · rw [List.getElem?_eq_none h'] at h; cases h
+
+/-- **Countdown, BlockingBegin**: `k = ts.length` calls in a row, each reporting one BlockingBegin
+    for machine `mi`, whatever the other machines do with the BlockingBegin events they receive.
+    The machine's current state has no transition on BlockingBegin nor on Signal. -/
+theorem countdown_blockingBegin (mi : Nat) (m : Machine) (st : State) (cur : Nat) (hne : cur ≠ STATE_END)
+    (hst : m.states[cur]? = some st) (htr : st.transitions[Event.blockingBegin.toNat]? = some none)
+    (hns : ∀ vec, st.transitions[Event.signal.toNat]? ≠ some (some vec))
+    (ts : List Int) (s : Fw σ) (r : Runtime)
+    (hr : s.rt[mi]? = some r) (hm : s.machines[mi]? = some m) (hcur : r.currentState = cur)
+    (hk : ∀ a, st.action = some a → a.hasLimit = true → ts.length < r.stateLimit) :
+    (runCalls ρ s (ts.map (fun t => ([TEvent.blockingBegin mi], t)))).rt[mi]? =
+      some { r with stateLimit := r.stateLimit - ts.length, zeroedA := r.zeroedA && ts.isEmpty,
+                    zeroedB := r.zeroedB && ts.isEmpty } ∧
+    (runCalls ρ s (ts.map (fun t => ([TEvent.blockingBegin mi], t)))).machines[mi]? = some m ∧
+    (mi < s.actions.length → mi < (runCalls ρ s (ts.map (fun t => ([TEvent.blockingBegin mi], t)))).actions.length) ∧
+    (ts ≠ [] → mi < s.actions.length →
+      (runCalls ρ s (ts.map (fun t => ([TEvent.blockingBegin mi], t)))).actions[mi]? = some none) ∧
+    ∃ l, (runCalls ρ s (ts.map (fun t => ([TEvent.blockingBegin mi], t)))).log = l ++ s.log ∧
+      ∀ st', LogEntry.trans mi Event.limitReached.toNat st' ∉ l := by
+  induction ts generalizing s r with
+  | nil =>
+    refine ⟨?_, hm, fun h => h, fun h => absurd rfl h, [], rfl, fun _ h => (by cases h)⟩
+    simp [runCalls, hr]
+  | cons t ts ih =>
+    subst hcur
+    have hk1 : ∀ a, st.action = some a → a.hasLimit = true → 2 ≤ r.stateLimit := by
+      intro a ha hl
+      have := hk a ha hl
+      simp only [List.length_cons] at this
+      omega
+    obtain ⟨c1, c2, c3, l0, c4, c5, _⟩ := call_blockingBegin_keep ρ mi t s r m st hr hm hne hst htr hns hk1
+    have hk2 : ∀ a, st.action = some a → a.hasLimit = true →
+        ts.length < ({ r with stateLimit := r.stateLimit - 1, zeroedA := false, zeroedB := false } : Runtime).stateLimit := by
+      intro a ha hl
+      have := hk a ha hl
+      simp only [List.length_cons] at this
+      show ts.length < r.stateLimit - 1
+      omega
+    obtain ⟨i1, i2, i3, i4, l1, i5, i6⟩ := ih (triggerEvents ρ [.blockingBegin mi] t s) _ c1 c3 rfl hk2
+    have hrun : runCalls ρ s ((t :: ts).map (fun t => ([TEvent.blockingBegin mi], t))) =
+        runCalls ρ (triggerEvents ρ [.blockingBegin mi] t s) (ts.map (fun t => ([TEvent.blockingBegin mi], t))) := by
+      simp [runCalls]
+    rw [hrun]
+    have hslot : mi < s.actions.length → (triggerEvents ρ [.blockingBegin mi] t s).actions[mi]? = some none := by
+      intro h; rw [c2]; simp [h]
+    refine ⟨?_, i2, fun h => i3 (lt_length_of_getElem?_some (hslot h)), fun _ h => ?_,
+      l1 ++ l0, by rw [i5, c4, List.append_assoc], ?_⟩
+    · rw [i1]
+      simp only [List.length_cons, List.isEmpty_cons, Bool.and_false, Bool.false_and, Nat.sub_sub, Nat.add_comm 1]
+    · cases ts with
+      | nil => simpa [runCalls] using hslot h
+      | cons t' ts' => exact i4 (by simp) (lt_length_of_getElem?_some (hslot h))
+    · intro st' hmem
+      rcases List.mem_append.mp hmem with h | h
+      · exact i6 st' h
+      · exact c5 st' h
+
+/-- **The `L`-th BlockingBegin** uses the limit up and delivers LimitReached -/
+theorem countdown_blockingBegin_fire (mi : Nat) (m : Machine) (st : State) (a : Action) (ts : List Int) (t : Int)
+    (s : Fw σ) (r : Runtime)
+    (hr : s.rt[mi]? = some r) (hm : s.machines[mi]? = some m) (hne : r.currentState ≠ STATE_END)
+    (hst : m.states[r.currentState]? = some st) (htr : st.transitions[Event.blockingBegin.toNat]? = some none)
+    (hns : ∀ vec, st.transitions[Event.signal.toNat]? ≠ some (some vec))
+    (hlen : mi < s.actions.length)
+    (hact : st.action = some a) (hl : a.hasLimit = true) (hL : ts.length = r.stateLimit - 1) :
+    ∃ l1 l2, (runCalls ρ s ((ts ++ [t]).map (fun t => ([TEvent.blockingBegin mi], t)))).log =
+      l1 ++ .trans mi Event.limitReached.toNat r.currentState :: .limit mi 0 true ::
+        .trans mi Event.blockingBegin.toNat r.currentState :: l2 ++
+        (runCalls ρ s (ts.map (fun t => ([TEvent.blockingBegin mi], t)))).log := by
+  have hrun : runCalls ρ s ((ts ++ [t]).map (fun t => ([TEvent.blockingBegin mi], t))) =
+      triggerEvents ρ [.blockingBegin mi] t (runCalls ρ s (ts.map (fun t => ([TEvent.blockingBegin mi], t)))) := by
+    simp [runCalls, List.foldl_append]
+  rw [hrun]
+  by_cases hts : ts = []
+  · subst hts
+    have h1 : r.stateLimit ≤ 1 := by simp at hL; omega
+    simpa [runCalls] using call_blockingBegin_fire ρ mi t s r m st a hr hm hne hst htr hlen hact hl h1
+  · have hk' : ∀ a', st.action = some a' → a'.hasLimit = true → ts.length < r.stateLimit := by
+      intro _ _ _
+      have : ts.length ≠ 0 := fun h => hts (List.length_eq_zero_iff.mp h)
+      omega
+    obtain ⟨c1, c2, c3, _, _⟩ := countdown_blockingBegin ρ mi m st r.currentState hne hst htr hns ts s r hr hm rfl hk'
+    exact call_blockingBegin_fire ρ mi t _
+      { r with stateLimit := r.stateLimit - ts.length, zeroedA := r.zeroedA && ts.isEmpty,
+               zeroedB := r.zeroedB && ts.isEmpty } m st a c1 c2 hne hst htr (c3 hlen) hact hl
+      (by show r.stateLimit - ts.length ≤ 1; omega)
+
+end Mb.Countdown
